@@ -149,7 +149,10 @@ func c11Eval(c *fw.Ctx, k c11Case) (sig, desc string, nontrivial bool) {
 	if yb, err := os.ReadFile(filepath.Join(dbase, "it", "y", "sum.wsp")); err != nil {
 		return "C11/sum-copy/second-item-not-copied", ctx + ": the destination of the second matched item was not created", nontrivial
 	} else if yf, err := wsp.Parse(yb); err == nil {
-		yr, _ := yf.Rings()
+		yr, rerr := yf.Rings()
+		if rerr != nil {
+			return "C11/sum-copy/destination-unparsable", ctx + ": second item: " + rerr.Error(), nontrivial
+		}
 		wy, _ := ExpSum(l, [][]wsp.Ring{ry}, k.Archive, k.From, until, k.Now)
 		hy, _ := ExpRead(l, yr, k.Archive, k.From, until, k.Now)
 		for i := range wy {
